@@ -364,6 +364,7 @@ func runC07(r *Run) {
 	clearHooks()
 	sharedOperandCases(r)
 	constantOperandCases(r)
+	unreducedOperandCases(r)
 	r.Bounds["operands"] = "all canonical operand values (symbolic, < p); Reduce input any value in [0, r) for soundness and < 2^144*p for acceptance"
 	r.Bounds["RANGE_CHECK_NB_BITS"] = gl.RANGE_CHECK_NB_BITS
 	r.Assumptions = append(r.Assumptions,
@@ -469,6 +470,32 @@ func constantOperandCases(r *Run) {
 		}
 		r.Discharge()
 	}
+}
+
+// unreducedOperandCases: the NoReduce variants take operands that are themselves unreduced sums.
+func unreducedOperandCases(r *Run) {
+	var cs fieldCase
+	cs = fieldCase{name: "SubNoReduce[subtrahend an unreduced sum]", bound: "all canonical a, u, v (symbolic): Reduce(SubNoReduce(a, AddNoReduce(u, v)))", build: func(fc *fctx) ([]frontend.Variable, []*ref.N) {
+		a, ra := fc.glIn("a")
+		u, ru := fc.glIn("u")
+		v, rv := fc.glIn("v")
+		out := fc.chip.Reduce(fc.chip.SubNoReduce(a, fc.chip.AddNoReduce(u, v)))
+		B := fc.rb
+		return []frontend.Variable{out.Limb}, []*ref.N{B.Sub(ra, B.Add(ru, rv))}
+	}}
+	runFieldCase(r, "unreduced-operands", cs, nil)
+	var cm fieldCase
+	cm = fieldCase{name: "MulNoReduce, AddNoReduce[operands unreduced sums]", bound: "all canonical a, b, u, v (symbolic): Reduce(AddNoReduce(MulNoReduce(a, b), AddNoReduce(u, v)))", build: func(fc *fctx) ([]frontend.Variable, []*ref.N) {
+		a, ra := fc.glIn("a")
+		b, rb := fc.glIn("b")
+		u, ru := fc.glIn("u")
+		v, rv := fc.glIn("v")
+		out := fc.chip.Reduce(fc.chip.AddNoReduce(fc.chip.MulNoReduce(a, b), fc.chip.AddNoReduce(u, v)))
+		B := fc.rb
+		return []frontend.Variable{out.Limb}, []*ref.N{B.Add(B.Mul(ra, rb), B.Add(ru, rv))}
+	}}
+	runFieldCase(r, "unreduced-operands", cm, nil)
+	r.Discharge()
 }
 
 // sharedOperandReplay: random canonical inputs, the reference's results as expected outputs, on the
